@@ -497,7 +497,7 @@ func (k Keeper) DepositLimitAuctionBid(ctx sdk.Context, bidder string, Collatera
 	id := k.GetLimitAuctionBidID(ctx)
 	bidderAddr, err := sdk.AccAddressFromBech32(bidder)
 	if err != nil {
-		return nil
+		return err
 	}
 
 	if PremiumDiscount.GT(sdk.NewIntFromUint64(types.MaxPremiumDiscount)) {
